@@ -34,6 +34,16 @@ def is_array_key(obj):
     return obj[2] in ARRAY_KEYS or obj[1] == "arg"
 
 
+def cfg_targets(e):
+    """user-owned arrays a store event may write into (must- and may-aliases)."""
+    out = set()
+    if isinstance(e.obj, tuple) and e.obj and e.obj[0] == "cfg":
+        out.add(e.obj)
+    for ob in e.d.get("mayc") or ():
+        out.add(ob)
+    return out
+
+
 def ends_in_raise(body):
     return bool(body) and isinstance(body[-1], ast.Raise)
 
@@ -212,8 +222,9 @@ def l3(chk, repo, models):
             bad = {}
             for run in runs:
                 for e in run.events:
-                    if e.kind == "store" and isinstance(e.obj, tuple) and e.obj and e.obj[0] == "cfg":
-                        bad.setdefault((e.lineno, e.obj), (e, run))
+                    if e.kind == "store":
+                        for ob in cfg_targets(e):
+                            bad.setdefault((e.lineno, ob), (e, run))
                     if e.kind == "cfg_mutation" and e.method != "__setitem__":
                         bad.setdefault((e.lineno, ("cfg", e.src, e.method)), (e, run))
             key = "%s.%s" % (c.name, mname)
@@ -233,8 +244,9 @@ def l3(chk, repo, models):
         bad = {}
         for r in gmod.all_runs:
             for e in r.events:
-                if e.kind == "store" and isinstance(e.obj, tuple) and e.obj and e.obj[0] == "cfg":
-                    bad.setdefault((e.lineno, e.obj), e)
+                if e.kind == "store":
+                    for ob in cfg_targets(e):
+                        bad.setdefault((e.lineno, ob), e)
         key = "%s.setup" % g.name
         if bad:
             for (ln, obj), e in bad.items():
@@ -284,8 +296,9 @@ def l3(chk, repo, models):
         bad = {}
         for r in runs:
             for e in r.events:
-                if e.kind == "store" and isinstance(e.obj, tuple) and e.obj and e.obj[0] == "cfg":
-                    bad.setdefault((e.lineno, e.obj), e)
+                if e.kind == "store":
+                    for ob in cfg_targets(e):
+                        bad.setdefault((e.lineno, ob), e)
                 if e.kind == "cfg_mutation" and e.src in params:
                     bad.setdefault((e.lineno, ("cfg", e.src, e.method)), e)
         if bad:
@@ -293,6 +306,32 @@ def l3(chk, repo, models):
                 chk.violation("L3", "%s(): writes argument %s" % (fn, obj[2]), "%s:%d" % (f.mod.rel, ln), "%s modifies its argument '%s' in place (%s): the caller's array / dict changes" % (fn, obj[2], e.d.get("op", e.d.get("method"))))
         else:
             chk.ok("L3", "%s()" % fn, f.where, "arguments %s are not written" % (params,))
+
+
+def l3b(chk, repo, models, rule="L3b", only_keys=None):
+    """No component / group writes a key of the user's surface dictionaries."""
+    chk.rule(rule, "no component or group assigns a key of a user-supplied surface / section dictionary (the dictionaries are read-only inputs; rewriting a key also disables the set-up checks that read it)", min_decided=20 if only_keys is None else 1)
+    units = [(m.cls, [r for rs in m.runs.values() for r in rs]) for m in models]
+    units += [(gm.cls, gm.all_runs) for gm in all_group_models(repo)]
+    for cls, runs in units:
+        if cls.name in POSTPROCESSING:
+            continue
+        bad = {}
+        for r in runs:
+            for e in r.events:
+                if e.kind == "cfg_mutation" and e.src and (e.src.startswith("surface") or e.src.startswith("section")):
+                    k = e.d.get("key")
+                    if only_keys is not None and k not in only_keys:
+                        continue
+                    bad.setdefault((e.lineno, e.src, k, e.method), e)
+        key = "%s: surface dictionary keys" % cls.name
+        if bad:
+            for (ln, src, k, meth), e in bad.items():
+                chk.violation(rule, "%s: writes %s[%r]" % (cls.name, src, k), where(cls, ln), "%s modifies the user's dictionary %s (key %r, %s): user data is changed and any later check that reads this key sees the rewritten value" % (cls.name, src, k, meth))
+        elif only_keys is None:
+            chk.ok(rule, key, cls.where, "no key of a user dictionary is written")
+    if only_keys is not None:
+        chk.ok(rule, "no write to keys %s" % sorted(only_keys), "openaerostruct", "guard keys are never rewritten") if not any(i.rule == rule and i.status == "violation" for i in chk.instances) else None
 
 
 def l4(chk, repo, models):
@@ -322,5 +361,6 @@ def run(chk, repo, tier):
     l1(chk, repo)
     l2(chk, repo)
     l3(chk, repo, models)
+    l3b(chk, repo, models)
     l4(chk, repo, models)
     r3(chk, repo)
